@@ -1,6 +1,6 @@
 #!/bin/bash
 # evidence and replays of runs against a changed tree go to a scratch directory, never to /verif/evidence
-export VERIF_DIR=/tmp/verif_scratch_out; mkdir -p $VERIF_DIR; cp /verif/known_findings.json $VERIF_DIR/
+export VERIF_DIR=/tmp/verif_scratch_out; mkdir -p $VERIF_DIR; cp /verif/known_findings.json $VERIF_DIR/; ln -sfn /verif/sim $VERIF_DIR/sim
 # usage: tools/matrix.sh <seeded-id>... : each seeded change against every claimed check (quick tier); results in seeded/<id>/matrix.txt
 cd /verif
 IDS=$(python3 -c "import json;print(' '.join(c['property_id'] for c in json.load(open('MANIFEST.json'))['checks']))")
